@@ -773,20 +773,6 @@ def oracle(case, obs):
     return None
 
 
-def known(case, obs, why):
-    """findings reported by this check and recorded in known_findings.d/c05.json"""
-    if case["op"] == "bin" and case["fn"] == "mul" and case["form"] in ("rscalar", "rlist", "rvec") and \
-            why.startswith("bin-wrong-elements"):
-        tags = list(case["a"]) + ([case["b"]] if case["form"] == "rscalar" else list(case["b"]))
-        if any(t[0] == "NC" for t in tags):
-            return "NEW-C05-1"
-    if case["op"] == "bin" and case["fn"] == "add" and case["form"] == "vec" and not case["a"] and \
-            not case["b"] and case.get("adt") == "date" and why.startswith("bin-raises") and \
-            "AttributeError" in obs.get("msg", ""):
-        return "NEW-C05-2"
-    return None
-
-
 def nontrivial(case, obs):
     if "skip" in obs or "broken" in obs:
         return False
